@@ -10,6 +10,8 @@ def run(ctx):
                         extra_mc=extra, walk_mode="cover" if quick else "probe",
                         sample_n=500 if quick else 8000, real_n=500 if quick else 10000,
                         hist_budget=120000 if quick else 1500000, explore_budget=3000 if quick else 20000)
+    # "every capacity": rounding to a power of two over the whole range of requested capacities
+    vlib.case_component(ctx, "SyncRingCap", "SyncRingSeq", "CapCases", ["MC_cap.cfg"], "c10cap")
     ctx.assumptions += ["int elements", "PushWait/PopWait are driven with maxWait 0 and <0 only (positive durations are wall-clock behaviour)",
                         "the real ring is placed at 2^32-M+Base through an add-only export file in the scratch copy, so the model's wrap modulo M coincides with the real 32-bit wrap",
                         "data-race freedom is observed by the Go race detector on real goroutines (plain accesses are invisible to the scheduler shim)"]
